@@ -165,15 +165,28 @@ Print Assumptions world_cases.
 
 (* every detach path (RemoveSentMessage, RemoveAllSentMessages, RemoveNodeInterface,
    RemoveAllNodeInterfaces, Node.RemoveInterface) leads back to the plain message id, and
-   re-attaching leads back to the builder result *)
+   re-attaching leads back to the builder result; `wapply` is the effect of an accepted operation,
+   `accepted` the model's prediction of the library's refusals, `wstep` = refused ? unchanged : wapply *)
+Theorem wstep_refused : forall w o, accepted w o = false -> wstep w o = w.
+Proof. exact wstep_refused_lemma. Qed.
+Print Assumptions wstep_refused.
+
 Theorem world_detach : forall w o,
-  detaches o -> w_has_static w = false -> world_can_id (wstep w o) = w_id w.
+  detaches o -> accepted w o = true -> w_has_static w = false -> world_can_id (wstep w o) = w_id w.
 Proof. exact world_detach_lemma. Qed.
 Print Assumptions world_detach.
 
 Theorem world_reattach : forall w o,
   detaches o -> w_has_static w = false ->
-  world_can_id (wstep (wstep (wstep w o) WAttach) WBusAdd)
+  world_can_id (wapply (wapply (wapply w o) WAttach) WBusAdd)
   = calculate (nth (w_cur w) (w_builders w) []) (w_prio w) (w_id w) (w_node_id w).
 Proof. exact world_reattach_lemma. Qed.
 Print Assumptions world_reattach.
+
+Theorem world_static : forall w x, world_can_id (wstep w (WSetStatic x)) = u32 x.
+Proof. exact world_static_lemma. Qed.
+Print Assumptions world_static.
+
+Theorem world_frame : forall w o, frame_op o -> world_can_id (wstep w o) = world_can_id w.
+Proof. exact world_frame_lemma. Qed.
+Print Assumptions world_frame.
